@@ -13,8 +13,14 @@ def run(tier, seed):
     import contracts.lexer as LX
     # parse() raises unless the input is exhausted; look-ahead never consumes; lexer reports what it cannot tokenise
     res.add(run_functions(["CParser.parse", "CParser._lex_error_func", "CParser._mark", "CParser._reset", "CParser._accept",
-                           "CParser._expect", "CParser._advance"] + TS.FUNCTIONS + LX.MATCH_VARIANTS, "C18/smt", tier))
+                           "CParser._expect", "CParser._advance"] + TS.FUNCTIONS + LX.MATCH_VARIANTS + LX.TOKEN_FUNCTIONS, "C18/smt", tier))
     res.add(tables.error_channel_obligations("C18"))
+    from props import ppline
+    pl = ppline.obligations(tier)
+    for o in pl.obs:
+        o.name = "C18/" + o.name
+    res.add(pl)
+
     from pyvc import rx_obligations
     rx = rx_obligations.c10_obligations(tier)
     rx.obs = [o for o in rx.obs if o.name.startswith("C10/error-coverage")]
